@@ -37,6 +37,7 @@ def gen_family(rng, n_roots=(1, 3), n_cond=(2, 8), n_rdm=(1, 4)):
     used = set()
     measure = rng.pick(['euclidean', None, 'corr'])
     rtyp = rng.pick(['int', 'str', 'float'])
+    fdtype = rng.pick(['float64', 'float64', 'float64', 'float64', 'int64', 'float32'])     # dtype of the stacks handed to the constructor
     styp = rng.pick(['str', 'str', 'int'])     # object-level descriptor values incl. falsy ones ('' / 0), one type per family
     sess_vals = ['s1', 's2', '', 's7'] if styp == 'str' else [0, 1, 2, 0]
     wgt = rng.chance(0.4)      # a float64 ndarray rdm descriptor usable as weights      # one label type per descriptor across the family (mixed-type columns are coerced by numpy)
@@ -50,7 +51,9 @@ def gen_family(rng, n_roots=(1, 3), n_cond=(2, 8), n_rdm=(1, 4)):
                              **({'wgt': {'values': [1.0 + 0.5 * i for i in range(nr)], 'container': 'array'}} if wgt else {}),
                              'extra': {'values': ['x%d' % u for u in ru], 'container': rng.pick(['list', 'array'])}},
                 'pat_desc': pat_desc, 'nan_cells': [], 'order': rng.pick(['F', 'S', 'Q']) if rng.chance(0.3) else 'C'}
-        if rng.chance(0.25) and nc >= 4:
+        if fdtype != 'float64':
+            spec['dtype'] = fdtype
+        if rng.chance(0.25) and nc >= 4 and fdtype != 'int64':
             i, j = sorted(rng.sample(range(nc), 2))
             spec['nan_cells'].append([rng.randrange(nr), i, j])
         roots.append(spec)
@@ -73,6 +76,7 @@ class RdmsOps:
             pat_tab.update(pt)
             nan_cells |= nc
         pool.tables = (rdm_tab, pat_tab, nan_cells)
+        pool.value_fn = gen.value_fn_of(family['roots'][0])
         pool.sem_checkers['rdms'] = (lambda slot, opname, prop='C10': pool.check_rdms(slot, opname, prop=prop), 'C10')
         for spec in family['roots']:
             try:
@@ -378,7 +382,7 @@ class RdmsOps:
             for i in range(nc):
                 for j in range(i + 1, nc):
                     a, b = cu[i], cu[j]
-                    v = None if (a == b or (r, min(a, b), max(a, b)) in missing) else enc(r, a, b)
+                    v = None if (a == b or (r, min(a, b), max(a, b)) in missing) else self.pool.value_fn(r, a, b)
                     exp_rows[(r, a, b, v)] += 1
         got_rows = Counter()
         try:
